@@ -37,6 +37,8 @@ def main(argv):
             files += [(os.path.join(env.REPO, "pyspike", "cython", n + ".pyx"), None)
                       for n in ("cython_get_tau",) + pyxemu.MODS]
         monitors.install_arm_observer(files)
+    if getattr(prop, "progress_monitor", True) and getattr(prop, "kernel_contracts", True) and k == 1 % K:
+        monitors.install_progress_monitor(ps)
     if hasattr(prop, "setup"):
         prop.setup(ctx)
     if replay:
